@@ -35,7 +35,9 @@ RULE = ("values of all eight record kinds built from real types (chunks with 0/1
         "true hash, another content's hash or garbage; value as bin / str / int array; extra, missing, duplicated fields), behind "
         "Chunk and ChunkWithPayment headers; plus the exhaustive sweep of all 2^24 three-byte headers through "
         "RecordHeader::from_record; every Request / Response variant (all NetworkAddress forms, Ok and eleven Err payloads, "
-        "0-40 keys / proofs / peers; each of the 17 Error variants with its payload in each of the 7 places of a Response that can carry an "
+        "0-40 keys / proofs / peers; free text of lengths 0/1/23/24/255/256/257/1000/70000 (ASCII, and 2-/3-/4-byte characters "
+        "straddling every offset next to 24 and 256 -- more in thorough) and byte strings of 0..65536 bytes in every variant that "
+        "carries text or bytes; each of the 17 Error variants with its payload in each of the 7 places of a Response that can carry an "
         "Error) through the real libp2p CBOR codec and rmp-serde, and truncations / bit flips of the CBOR.  Distinct/non-trivial by (op, kind, outcome class, size class)")
 ASSUMPTIONS = [
     "serde-derive symmetry (Deserialize inverts Serialize for the derived types) and the totality of the third-party typed "
@@ -390,10 +392,62 @@ def error_carriers(rng, err):
             {"m": "GetChunkExistenceProof", "proofs": proofs_err}]
 
 
+def boundary_texts(quick):
+    """free text of lengths around every length-prefix boundary, pure ASCII and with a 2-, 3- and 4-byte
+    character straddling each byte offset near those boundaries (so that any cut at that offset falls
+    inside a character)"""
+    out = []
+    lens = [0, 1, 23, 24, 255, 256, 257, 1000] + ([] if quick else [31, 32, 65535, 65536])
+    for n in lens:
+        out.append(("ascii:%d" % n, b"r" * n))
+    bounds = [24, 256] + ([] if quick else [32, 255, 257, 1024, 65536])
+    for b in bounds:
+        for ch in ("\u00e9", "\u20ac", "\U0001f600"):
+            e = ch.encode("utf-8")
+            for back in range(1, len(e)):
+                # the character starts `back` bytes before offset b
+                head = b"a" * (b - back)
+                for tail in (0, 1, 50):
+                    out.append(("straddle:%d:%dB@-%d+%d" % (b, len(e), back, tail), head + e + b"z" * tail))
+    out.append(("ascii:70000", b"q" * 70000))
+    if not quick:
+        out.append(("multibyte:70000", ("\u20ac" * 23334).encode("utf-8")[:69999] + b"!"))
+    return out
+
+
+def gen_long_fields(ctx):
+    """long / boundary-length free text and byte strings in every message variant that carries one"""
+    rng, quick = ctx.rng, ctx.tier == "quick"
+    cases = []
+    for tag, t in boundary_texts(quick):
+        cases.append({"op": "msg", "ty": "request", "family": "text:" + tag,
+                      "v": {"m": "PeerConsideredAsBad", "a": rnd_addr(rng), "b": rnd_addr(rng), "text": t.hex()}})
+    sizes = [0, 1, 23, 24, 255, 256, 257, 1000, 65535, 65536] + ([] if quick else [70000, 300000])
+    for n in sizes:
+        blob = {"gen": [n, 7 + n]} if n > 2000 else rnd_hex(rng, n)
+        key = bytes((i * 31 + n) % 251 for i in range(n)).hex()
+        fam = "bytes:%d" % n
+        batch = [
+            {"op": "msg", "ty": "request", "family": fam, "v": {"m": "GetReplicatedRecord", "a": {"t": "key", "x": key}, "b": rnd_addr(rng)}},
+            {"op": "msg", "ty": "request", "family": fam, "v": {"m": "Replicate", "holder": {"t": "key", "x": key}, "keys": [[{"t": "key", "x": key}, {"t": "chunk"}]]}},
+            {"op": "msg", "ty": "response", "family": fam, "v": {"m": "GetReplicatedRecord", "r": {"a": rnd_addr(rng), "data": blob}}},
+            {"op": "msg", "ty": "response", "family": fam, "v": {"m": "GetRegisterRecord", "r": {"a": {"t": "key", "x": key}, "data": blob}}},
+            {"op": "msg", "ty": "response", "family": fam, "v": {"m": "Replicate", "r": dict(rnd_err(rng, "RecordExists"), k=key)}},
+            {"op": "msg", "ty": "response", "family": fam, "v": {"m": "GetClosestPeers", "a": rnd_addr(rng), "peers": [], "sig": key}},
+        ]
+        # Vec<u8> carriers (one tree node per byte) stay below 64 KiB in the quick tier
+        if quick and n >= 65535:
+            cases += [batch[2]] if n == 65536 else []      # one 4-byte-length case; the rest in thorough
+        else:
+            cases += batch
+    return cases
+
+
 def gen_messages(ctx):
     rng = ctx.rng
     n = 4 if ctx.tier == "quick" else 60
-    cases = []
+    cases = gen_long_fields(ctx)
+    rng.shuffle(cases)
     # every Error variant (with its payload) in every position of a Response that can carry an Error
     for rep in range(1 if ctx.tier == "quick" else 6):
         for e in ERRORS:
